@@ -221,3 +221,188 @@ Section Lift.
       + exact F.
   Qed.
 End Lift.
+
+(* ------------------------------------------------------------------ unit signatures *)
+Definition usig_follow (k : list tok) : Prop :=
+  match k with KVar _ :: _ | KExp :: _ | KBar :: _ => False | _ => True end.
+Definition nounit (k : list tok) : Prop :=
+  match k with KVar _ :: _ | KExp :: _ => False | _ => True end.
+
+Lemma usig_follow_of L k : 3 <= L -> follow L k -> nexp k -> usig_follow k.
+Proof. destruct k as [|t r]; simpl; [tauto|]. destruct t; simpl; intros; try exact I; try lia; try contradiction. Qed.
+
+Lemma p_integer_neg z k : p_integer (KMinus :: KNum (ZLit z) :: k) = POk ((-1 * z)%Z, k).
+Proof. reflexivity. Qed.
+Lemma p_integer_pos z k : p_integer (KNum (ZLit z) :: k) = POk ((1 * z)%Z, k).
+Proof. reflexivity. Qed.
+
+Lemma unit_step f u z k :
+  (match k with KExp :: _ => False | _ => True end) ->
+  units_loop (S f) (KVar u :: pr_exp z ++ k) = dop (l, ts3) <- units_loop f k; POk ((u, z) :: l, ts3).
+Proof.
+  intros Hk. unfold pr_exp. destruct (Z.eqb_spec z 1) as [->|Hz].
+  - simpl. destruct k as [|t r]; [reflexivity|]. destruct t; try reflexivity. contradiction.
+  - destruct (Z.ltb_spec z 0) as [Hneg|Hpos].
+    + change (units_loop (S f) (KVar u :: [KExp; KMinus; KNum (ZLit (- z))] ++ k))
+        with (dop (e, ts2) <- p_integer (KMinus :: KNum (ZLit (- z)) :: k);
+              dop (l, ts3) <- units_loop f ts2; POk ((u, e) :: l, ts3)).
+      rewrite p_integer_neg. cbn [pbind]. replace (- 1 * - z)%Z with z by lia. reflexivity.
+    + change (units_loop (S f) (KVar u :: [KExp; KNum (ZLit z)] ++ k))
+        with (dop (e, ts2) <- p_integer (KNum (ZLit z) :: k);
+              dop (l, ts3) <- units_loop f ts2; POk ((u, e) :: l, ts3)).
+      rewrite p_integer_pos. cbn [pbind]. replace (1 * z)%Z with z by lia. reflexivity.
+Qed.
+
+Lemma pr_units_head us k : nounit k -> (match pr_units us ++ k with KExp :: _ => False | _ => True end).
+Proof.
+  destruct us as [|[u z] us]; simpl.
+  - destruct k as [|t r]; [tauto|]. destruct t; simpl; tauto.
+  - tauto.
+Qed.
+
+Lemma units_loop_ok : forall us k fuel,
+  List.length (pr_units us ++ k) < fuel -> nounit k ->
+  units_loop fuel (pr_units us ++ k) = POk (us, k).
+Proof.
+  induction us as [|[u z] us IH]; intros k fuel Hf Hk.
+  - simpl in *. destruct fuel as [|f]; [lia|]. simpl.
+    destruct k as [|t r]; [reflexivity|]. destruct t; try reflexivity. contradiction.
+  - destruct fuel as [|f]; [simpl in Hf; lia|].
+    change (pr_units ((u, z) :: us) ++ k) with ((KVar u :: pr_exp z ++ pr_units us) ++ k) in *.
+    simpl app in *. rewrite <- app_assoc in *.
+    rewrite unit_step; [|apply pr_units_head; exact Hk].
+    rewrite IH; [reflexivity| |exact Hk].
+    simpl in Hf. rewrite app_length in Hf. lia.
+Qed.
+
+Lemma p_units_ok us k : us <> [] -> nounit k -> p_units (pr_units us ++ k) = POk (us, k).
+Proof.
+  intros NE Hk. unfold p_units. rewrite units_loop_ok; [|lia|exact Hk].
+  cbn [pbind]. destruct us; [congruence|reflexivity].
+Qed.
+
+Lemma p_usig_ok u k : usig_ok u = true -> usig_follow k -> p_usig (pr_usig u ++ k) = POk (u, k).
+Proof.
+  destruct u as [us inv]. unfold usig_ok, pr_usig. simpl fst. simpl snd. intros OK Hk.
+  assert (NE : us <> []) by (destruct us; [discriminate|congruence]).
+  assert (Hn : nounit k) by (destruct k as [|t r]; [exact I|]; destruct t; simpl in *; tauto).
+  unfold p_usig. rewrite <- app_assoc.
+  destruct inv as [|i inv'].
+  - simpl app. rewrite (p_units_ok us k NE Hn). cbn [pbind].
+    destruct k as [|t r]; [reflexivity|]. destruct t; try reflexivity. contradiction.
+  - cbn [app]. rewrite (p_units_ok us _ NE); [|exact I]. cbn [pbind].
+    rewrite (p_units_ok (i :: inv') k); [reflexivity|congruence|exact Hn].
+Qed.
+
+(* ------------------------------------------------------------------ comma-separated lists
+   [entries]: (printed item, its result); [cflat]: ", item , item ..." *)
+Definition cflat {A} (xs : list (list tok * A)) : list tok := flat_map (fun x => KComma :: fst x) xs.
+
+Fixpoint centries_ok {A} (item : parser A) (k : list tok) (xs : list (list tok * A)) : Prop :=
+  match xs with
+  | [] => True
+  | x :: more =>
+      item (fst x ++ cflat more ++ k) = POk (snd x, cflat more ++ k) /\ centries_ok item k more
+  end.
+
+Definition nocomma (k : list tok) : Prop := match k with KComma :: _ => False | _ => True end.
+
+Lemma comma_loop_ok {A} (item : parser A) k : nocomma k ->
+  forall xs, centries_ok item k xs ->
+  forall fuel, List.length (cflat xs ++ k) < fuel ->
+  comma_loop item fuel (cflat xs ++ k) = POk (map snd xs, k).
+Proof.
+  intros Hk. induction xs as [|[ts a] more IH]; intros Hok fuel Hf.
+  - simpl in *. destruct fuel as [|f]; [lia|]. simpl.
+    destruct k as [|t r]; [reflexivity|]. destruct t; try reflexivity. contradiction.
+  - destruct Hok as [Hx Hok]. simpl in Hx. destruct fuel as [|f]; [simpl in Hf; lia|].
+    change (cflat ((ts, a) :: more) ++ k) with ((KComma :: ts ++ cflat more) ++ k) in *.
+    simpl app in *. rewrite <- app_assoc in *. simpl comma_loop. rewrite Hx. cbn [pbind].
+    rewrite IH; [reflexivity|exact Hok|]. simpl in Hf. rewrite app_length in Hf. lia.
+Qed.
+
+Lemma cflat_follow {A} (xs : list (list tok * A)) k : follow 10 k -> follow 10 (cflat xs ++ k).
+Proof. destruct xs as [|x more]; simpl; [tauto|]. intros _. lia. Qed.
+
+Lemma join_cons sep x l : join sep (x :: l) = x ++ flat_map (fun y => sep :: y) l.
+Proof.
+  revert x. induction l as [|y l IH]; intros x.
+  - simpl. rewrite app_nil_r. reflexivity.
+  - change (join sep (x :: y :: l)) with (x ++ sep :: join sep (y :: l)). rewrite IH. reflexivity.
+Qed.
+
+Lemma cflat_map {A B} (f : B -> list tok) (g : B -> A) (l : list B) :
+  flat_map (fun y => KComma :: y) (map f l) = cflat (map (fun b => (f b, g b)) l).
+Proof. induction l as [|b l IH]; simpl; [reflexivity|]. rewrite IH. reflexivity. Qed.
+
+(* ------------------------------------------------------------------ argument lists *)
+Section Args.
+  Variable pe : parser ptree.
+
+  (* positional arguments after the first: ", a , a ..." in front of ")" or of ", k : ..." *)
+  Fixpoint pentries_ok (k : list tok) (xs : list (list tok * ptree)) : Prop :=
+    match xs with
+    | [] => True
+    | x :: more =>
+        pe (fst x ++ cflat more ++ k) = POk (snd x, cflat more ++ k) /\
+        starts_var_colon (fst x ++ cflat more ++ k) = false /\
+        pentries_ok k more
+    end.
+
+  Lemma pos_tail_rp xs r : pentries_ok (KRP :: r) xs ->
+    forall fuel, List.length (cflat xs ++ KRP :: r) < fuel ->
+    pos_args pe fuel false (cflat xs ++ KRP :: r) = POk (map snd xs, KRP :: r).
+  Proof.
+    induction xs as [|[ts a] more IH]; intros Hok fuel Hf.
+    - destruct fuel as [|f]; [simpl in Hf; lia|]. reflexivity.
+    - destruct Hok as (Hx & Hvc & Hok). simpl in Hx, Hvc. destruct fuel as [|f]; [simpl in Hf; lia|].
+      change (cflat ((ts, a) :: more) ++ KRP :: r) with ((KComma :: ts ++ cflat more) ++ KRP :: r) in *.
+      simpl app in *. rewrite <- app_assoc in *.
+      simpl pos_args. rewrite Hvc, Hx. cbn [pbind].
+      rewrite IH; [reflexivity|exact Hok|]. simpl in Hf. rewrite app_length in Hf. lia.
+  Qed.
+
+  Lemma pos_tail_kw xs kn y : pentries_ok (KComma :: KVar kn :: KColon :: y) xs ->
+    forall fuel, List.length (cflat xs ++ KComma :: KVar kn :: KColon :: y) < fuel ->
+    pos_args pe fuel false (cflat xs ++ KComma :: KVar kn :: KColon :: y)
+    = POk (map snd xs, KVar kn :: KColon :: y).
+  Proof.
+    induction xs as [|[ts a] more IH]; intros Hok fuel Hf.
+    - destruct fuel as [|f]; [simpl in Hf; lia|]. reflexivity.
+    - destruct Hok as (Hx & Hvc & Hok). simpl in Hx, Hvc. destruct fuel as [|f]; [simpl in Hf; lia|].
+      change (cflat ((ts, a) :: more) ++ KComma :: KVar kn :: KColon :: y)
+        with ((KComma :: ts ++ cflat more) ++ KComma :: KVar kn :: KColon :: y) in *.
+      simpl app in *. rewrite <- app_assoc in *.
+      simpl pos_args. rewrite Hvc, Hx. cbn [pbind].
+      rewrite IH; [reflexivity|exact Hok|]. simpl in Hf. rewrite app_length in Hf. lia.
+  Qed.
+
+  (* keyword arguments: "k : v" entries *)
+  Definition kflat (xs : list (string * list tok * ptree)) : list tok :=
+    flat_map (fun x => KComma :: KVar (fst (fst x)) :: KColon :: snd (fst x)) xs.
+
+  Fixpoint kentries_ok (k : list tok) (xs : list (string * list tok * ptree)) : Prop :=
+    match xs with
+    | [] => True
+    | x :: more =>
+        pe (snd (fst x) ++ kflat more ++ k) = POk (snd x, kflat more ++ k) /\ kentries_ok k more
+    end.
+
+  Lemma kw_tail xs r : kentries_ok (KRP :: r) xs ->
+    forall fuel, List.length (kflat xs ++ KRP :: r) < fuel ->
+    kw_args pe fuel false (kflat xs ++ KRP :: r)
+    = POk (map (fun x => (fst (fst x), snd x)) xs, KRP :: r).
+  Proof.
+    induction xs as [|[[kn ts] a] more IH]; intros Hok fuel Hf.
+    - destruct fuel as [|f]; [simpl in Hf; lia|]. reflexivity.
+    - destruct Hok as (Hx & Hok). simpl in Hx. destruct fuel as [|f]; [simpl in Hf; lia|].
+      change (kflat ((kn, ts, a) :: more) ++ KRP :: r)
+        with ((KComma :: KVar kn :: KColon :: ts ++ kflat more) ++ KRP :: r) in *.
+      simpl app in *. rewrite <- app_assoc in *.
+      simpl kw_args. rewrite Hx. cbn [pbind].
+      rewrite IH; [reflexivity|exact Hok|]. simpl in Hf. rewrite app_length in Hf. lia.
+  Qed.
+
+  Lemma kflat_follow xs r : follow 10 (kflat xs ++ KRP :: r).
+  Proof. destruct xs as [|x more]; simpl; lia. Qed.
+End Args.
